@@ -403,8 +403,9 @@ class Agent(dbus.service.Object):
             self._logger.debug('Performing TX step %5.1f: %s', step.order, step.name)
             try:
                 if step.action(ctr):
+                    # the step took over transmission (e.g. sent fragments)
                     self._logger.debug('Step %5.1f interrupted the chain', step.order)
-                    break
+                    return
             except Exception as err:
                 self._logger.error('Step %5.1f failed with exception: %s', step.order, err)
                 self._logger.debug('%s', traceback.format_exc())
